@@ -514,6 +514,32 @@ func catalogue() []*deviant {
 		}
 		return err
 	}})
+	// --- an operation that fails with the right error but is partly applied ---
+	add(&deviant{name: "remove-nonempty-deletes-children", remove: func(fs *mem.FS, n string) (error, bool) {
+		err := fs.Remove(n)
+		if errors.Is(err, hackpadfs.ErrNotEmpty) {
+			if ents, e2 := hackpadfs.ReadDir(fs, n); e2 == nil {
+				for _, e := range ents {
+					_ = hackpadfs.RemoveAll(fs, n+"/"+e.Name())
+				}
+			}
+		}
+		return err, true
+	}})
+	add(&deviant{name: "rename-failing-removes-old", rename: func(fs *mem.FS, o, n string) (error, bool) {
+		err := fs.Rename(o, n)
+		if err != nil && !errors.Is(err, hackpadfs.ErrNotExist) {
+			_ = hackpadfs.RemoveAll(fs, o)
+		}
+		return err, true
+	}})
+	add(&deviant{name: "mkdir-failing-creates-sibling", mkdir: func(fs *mem.FS, n string, p hackpadfs.FileMode) (error, bool) {
+		err := fs.Mkdir(n, p)
+		if errors.Is(err, hackpadfs.ErrExist) {
+			_ = hackpadfs.WriteFullFile(fs, n+".stray", nil, 0o644)
+		}
+		return err, true
+	}})
 	add(&deviant{name: "remove-nonempty-dir-allowed", remove: func(fs *mem.FS, n string) (error, bool) {
 		if info, err := fs.Stat(n); err == nil && info.IsDir() {
 			return hackpadfs.RemoveAll(fs, n), true
